@@ -125,7 +125,7 @@ Fixpoint fits (pc : bool) (k : nat) (e : expr) : Prop :=
   | EIndex _ idx => idx <> [] /\ all_fit (fits false 0) idx
   | EUserCall _ args => all_fit (fits false 0) args
   | EIn [x] _ => k <= 5 /\ fits pc 5 x /\ ok pc x TIn = true
-  | EIn (_ :: _ :: _ as idx) _ => all_fit (fits false 0) idx
+  | EIn ((_ :: _ :: _) as idx) _ => all_fit (fits false 0) idx
   | EUnary _ v => fits false 11 v
   | EBinary op l r =>
       match op with
